@@ -27,6 +27,10 @@ Theorem C09_no_component_left_out : forall front : bool,
   length (shown_fields front) = 17 /\ DoV.nodup_f (shown_fields front) = true /\ forall f, reached front f = true.
 Proof. exact documented_list_complete. Qed.
 Print Assumptions C09_no_component_left_out.
+(* the flat text (labels of collapsed nested statements and of properties) names every field of a statement, once *)
+Theorem C09_flat_text_names_every_field : forall f : field, length (filter (fun r => field_eqb f (fst (fst r))) doc_flat) = 1.
+Proof. exact documented_flat_complete. Qed.
+Print Assumptions C09_flat_text_names_every_field.
 (* what the specification says for a component tree of plain values (statement without properties):
    the leaves in source order, each once, with inherited shared text, under the component's name *)
 Theorem C09_plain_component_values : forall T s, (forall name, get_props T s name = []) ->
